@@ -21,37 +21,66 @@ from .keyterm import KeyTerms, branches
 
 
 def check_run_argument_binding(A, R: Report, rid: str):
+    """Term-based: the list returned by _get_run_arguments is a map over the signature of run() whose element reads only
+    self.input_tasks[<that name>] / self.parameters[<that name>] (through the registries' own accessors)."""
     task = A.cls('Task')
     fra = task.lookup('_get_run_arguments')
-    loops = [n for n in A.typer.own_nodes(fra) if isinstance(n, ast.For) and 'signature' in src(n.iter) and 'parameters' in src(n.iter)]
-    if not loops:
-        R.undecided(rid, 'Task._get_run_arguments', 'signature loop not recognised', where=where(fra))
-    else:
-        lp = loops[0]
-        argname = src(lp.target.elts[0]) if isinstance(lp.target, ast.Tuple) else src(lp.target)
-        subs = [n for n in ast.walk(lp) if isinstance(n, ast.Subscript) and isinstance(n.ctx, ast.Load) and src(n.value) in ('self.input_tasks', 'self.parameters', 'self.params')]
-        gets = [n for n in ast.walk(lp) if isinstance(n, ast.Call) and isinstance(n.func, ast.Attribute) and n.func.attr == 'get' and src(n.func.value) in ('self.input_tasks', 'self.parameters', 'self.params')]
-        by_name = bool(subs or gets) and all(src(s.slice) == argname for s in subs) and all(g.args and src(g.args[0]) == argname for g in gets)
-        appends = [n for n in ast.walk(lp) if isinstance(n, ast.Call) and isinstance(n.func, ast.Attribute) and n.func.attr == 'append']
-        locals_ok = True
-        for a in appends:
-            names = {x.id for x in ast.walk(a.args[0]) if isinstance(x, ast.Name)}
-            for nm in names - {'NO_VALUE', argname}:
-                defs = [d for d in ast.walk(lp) if isinstance(d, ast.Assign) and any(src(t) == nm for t in d.targets)]
-                if not defs:
-                    locals_ok = False
-                for d in defs:
-                    refs = {x.id for x in ast.walk(d.value) if isinstance(x, ast.Name)} - {'NO_VALUE', 'self', 'isinstance', 'Task', argname, nm}
-                    if refs:
-                        locals_ok = False
-                    # values may only be read from the task's input registry and parameter registry
-                    for x in ast.walk(d.value):
-                        if isinstance(x, ast.Attribute) and isinstance(x.value, ast.Name) and x.value.id == 'self' and x.attr not in ('input_tasks', 'parameters', 'params'):
-                            locals_ok = False
-        in_order = src(lp.iter).endswith('.parameters.items()') or src(lp.iter).endswith('.parameters')
-        R.check(by_name and bool(appends) and locals_ok and in_order, rid, 'Task._get_run_arguments', key_of('by-name', by_name, locals_ok, in_order), f'lookups keyed by `{argname}`, appended in signature order',
-                'run() arguments are not bound by their own name (positional or foreign lookup): a value of another input/parameter would be passed', where=where(fra, lp))
-
+    rets = [n for n in A.typer.own_nodes(fra) if isinstance(n, ast.Return) and n.value is not None]
+    if not rets:
+        R.undecided(rid, 'Task._get_run_arguments', 'no return value', where=where(fra))
+        return
+    stop = {task.lookup(n).qualname for n in ('value', 'input_tasks') if task.lookup(n) is not None}
+    for cname in ('InputTasks', 'ParameterRegistry'):
+        ci = A.prog.find_cls(cname)
+        for m in ('__getitem__', 'get', '__contains__', '__getattr__'):
+            if ci is not None and ci.lookup(m) is not None:
+                stop.add(ci.lookup(m).qualname)
+    A.sym.stop_at = stop
+    try:
+        rv = rets[-1].value
+        t = A.sym.local_term(fra, ('inst', task), rv.id) if isinstance(rv, ast.Name) else A.sym.expr_term(rv, Ctx(fra, ('inst', task)))
+    finally:
+        A.sym.stop_at = set()
+    if t[0] != 'map' or len(t[1]) < 1:
+        R.undecided(rid, 'Task._get_run_arguments', f'returned value is not recognised as a map over the signature of run(): {pretty(t)[:120]}', where=where(fra))
+        return
+    vars_, body, seq, guard = t[1], t[2], t[3], t[4]
+    keyvar = vars_[0]
+    problems = []
+    seq_txt = pretty(seq)
+    if 'signature' not in seq_txt or 'parameters' not in seq_txt or seq[0] not in ('items', 'keys', 'method', 'attr', 'call'):
+        problems.append(f'arguments are not taken in the order of run()\'s signature ({seq_txt[:80]})')
+    if seq[0] == 'slice' or any(x[0] == 'slice' and x[1] is seq for x in dag_nodes(t)):
+        problems.append('only part of the signature is bound')
+    registries = 0
+    for x in dag_nodes(body):
+        if x[0] == 'ref' and any(n in x[1] for n in ('InputTasks.', 'ParameterRegistry.')):
+            registries += 1
+            if not x[3] or x[3][0] != keyvar:
+                problems.append(f'`{pretty(x)[:80]}` is not keyed by the argument\'s own name')
+        elif x[0] in ('index',) and x[1][0] in ('attr', 'ref') and ('input_tasks' in pretty(x[1]) or 'parameters' in pretty(x[1]) or 'params' in pretty(x[1])):
+            registries += 1
+            if x[2] != keyvar:
+                problems.append(f'`{pretty(x)[:80]}` is not keyed by the argument\'s own name')
+        elif x[0] == 'attr' and x[1] == ('self',) and x[2] not in ('parameters', 'params', 'input_tasks', '_input_tasks', 'run'):
+            problems.append(f'a run() argument can be taken from `self.{x[2]}` (neither an input task nor a declared parameter)')
+        elif x[0] == 'ref' and x[1] not in ('Task.input_tasks', 'Task.value') and not any(n in x[1] for n in ('InputTasks.', 'ParameterRegistry.')):
+            problems.append(f'a run() argument can come from `{x[1]}`')
+    # every use of the two registries must be a keyed access (or a membership test) with the argument's own name
+    def is_registry(x):
+        return (x[0] == 'attr' and x[1] == ('self',) and x[2] in ('parameters', 'params', 'input_tasks', '_input_tasks')) or (x[0] == 'ref' and x[1] == 'Task.input_tasks')
+    for x in dag_nodes(t):
+        for i, c in enumerate(x):
+            if isinstance(c, tuple) and c and isinstance(c[0], str) and is_registry(c):
+                ok_use = (x[0] == 'ref' and i == 2 and any(n in x[1] for n in ('InputTasks.', 'ParameterRegistry.')) and x[3] and x[3][0] == keyvar) or \
+                    (x[0] == 'cmp' and x[1] in ('In', 'NotIn') and i == 3 and x[2] == keyvar) or (x[0] == 'index' and i == 1 and x[2] == keyvar) or \
+                    (x[0] == 'method' and i == 1 and x[2] in ('get', '__getitem__', '__contains__') and x[3] and x[3][0] == keyvar)
+                if not ok_use:
+                    problems.append(f'`{pretty(x)[:80]}` reads a registry other than by the argument\'s own name')
+    if registries == 0:
+        problems.append('no lookup in input_tasks / parameters found')
+    R.check(not problems, rid, 'Task._get_run_arguments', key_of('by-name', sorted(set(problems))), f'map over run()\'s signature; {registries} registry lookups, all keyed by the argument name',
+            'run() arguments are not bound by their own name from input tasks / declared parameters: ' + '; '.join(sorted(set(problems))), witness=[pretty(t)[:300]], where=where(fra))
 
 
 def run(A, R: Report, thorough: bool):
